@@ -219,6 +219,12 @@ class MapToMolecule(Processor):
             fragment_nodes = list(self.fragments[self.node_to_fragment[start_node]])
             self.added_fragment_nodes += fragment_nodes
 
+            # the block numbers its residues from its own first resid; shift
+            # them in case the first residue does not have that resid
+            resid_shift = resid_dict[start_node] - min(nx.get_node_attributes(new_mol, "resid").values())
+            for mol_node in new_mol.nodes:
+                new_mol.nodes[mol_node]["resid"] += resid_shift
+
             # extract the nodes of this paticular residue and store a
             # dummy correspndance
             correspondence = {node:node for node in new_mol.nodes}
